@@ -31,13 +31,15 @@ let register () =
         let (s', e) = Prune.sftp_prune fuel (store unc "s") (bytes_of_hex bstr) (keep_fn keep) (parse_fs tree) in
         err_string e ^ " " ^ print_fs s'
     | _ -> "ERR args");
-  (* verify <lazy|eager> <unc> <repair> <hex(base dir string)> <tree> <decomp table> -> <result> <msgs> <tree'>
+  (* [optional last argument: skip-verify store]
+     verify <lazy|eager> <unc> <repair> <hex(base dir string)> <tree> <decomp table> -> <result> <msgs> <tree'>
      msgs = "-" | msg{","msg}; msg = inv:<id>:<sum>:<removed r|failed f|norepair n> | oth:<id> *)
   Drv.register "c16.verify" (fun args -> match args with
-    | [mode; unc; repair; bstr; tree; zt] ->
+    | mode :: unc :: repair :: bstr :: tree :: zt :: rest ->
         let zd = parse_table zt no_codec in
         let f = if mode = "eager" then Prune.verify_eager else Prune.verify in
-        let ((s', msgs), e) = f Sha256.h_model zd fuel (store unc "s") (bytes_of_hex bstr) (bool_arg repair) (parse_fs tree) in
+        let st = { (store unc "s") with LocalStore.st_skip = (match rest with [sk] -> bool_arg sk | _ -> false) } in
+        let ((s', msgs), e) = f Sha256.h_model zd fuel st (bytes_of_hex bstr) (bool_arg repair) (parse_fs tree) in
         let ms = Stdlib.List.map (function
           | Prune.VmInvalid (i, sum, removed, failed) ->
               "inv:" ^ id_hex i ^ ":" ^ id_hex sum ^ ":" ^ (if removed then "r" else if failed then "f" else "n")
